@@ -714,6 +714,32 @@ fn corpus_case(w: &World, kind: &'static str, s: &str) -> Option<Case> {
     Some(Case { desc, kind, ms_dump: vec![dump], exts: vec![ext_s], keys, abs, rel, internal: None })
 }
 
+/// tr() over a lopsided 9-leaf "ladder": leaf i sits at depth i+1 (the last two at depth 8). Only key 7
+/// gets signatures, and it appears only in the leaves at depth >= 7, so the planner / satisfier must take a
+/// leaf whose control block (33 + 32*7 = 257 bytes) needs a 3-byte length prefix in the witness.
+fn ladder_case(w: &World) -> Option<Case> {
+    use miniscript::descriptor::TapTree;
+    let specs = [
+        "pk(K0)", "pk(K1)", "pk(K2)", "pk(K3)", "pk(K4)", "pk(K6)",
+        "and_v(v:pk(K7),older(1))", "pk(K7)", "and_v(v:pk(K7),sha256(H))",
+    ];
+    let mut leaves = Vec::new();
+    let mut dumps = Vec::new();
+    let mut exts = Vec::new();
+    for s in specs.iter() {
+        let m = corpus_ms::<Tap>(w, true, s)?;
+        dumps.push((dump_str(w, &m.node), m.encode().into_bytes()));
+        exts.push(ext_str(&m.ext));
+        leaves.push(m);
+    }
+    let mut t = TapTree::leaf(leaves.pop().unwrap());
+    while let Some(l) = leaves.pop() {
+        t = TapTree::combine(TapTree::leaf(l), t).ok()?;
+    }
+    let desc = Descriptor::new_tr(w.key(5, true), Some(t)).ok()?;
+    Some(Case { desc, kind: "tr", ms_dump: dumps, exts, keys: vec![7], abs: vec![], rel: vec![1], internal: Some(5) })
+}
+
 fn descs(seed: u64, n: u64) {
     let w = World::new();
     let mut rng = Rng(seed ^ 0x5151);
@@ -730,6 +756,17 @@ fn descs(seed: u64, n: u64) {
             }
             _ => println!("X corpus-rejected {} {}", kind, s),
         }
+    }
+    match catch_unwind(AssertUnwindSafe(|| ladder_case(&w))) {
+        Ok(Some(case)) => {
+            for env in lock_envs(&case, &mut rng) {
+                id += 1;
+                let mut s = String::new();
+                desc_block(&w, &case, &env, id, false, &mut rng, &mut s);
+                print!("{}", s);
+            }
+        }
+        _ => println!("X corpus-rejected tr ladder"),
     }
     for c in 0..n {
         let cseed = seed.wrapping_mul(1_000_003).wrapping_add(c);
